@@ -127,12 +127,33 @@ def getitem(I, st, obj, idx, node):
             return [(st, obj[idx])]
         except Exception as ex:
             return raise_(st, type(ex), *ex.args, node=node)
+    if isinstance(obj, dict) and isinstance(idx, Sym) and idx.k == "str" and all(isinstance(k, str) for k in obj):
+        return finite_lookup(I, st, obj, idx, node, None, False)
     sp = I.specs.get("getitem_obj")
     if sp is not None:
         r = sp(I, st, [obj, idx], {}, node)
         if r is not None:
             return r
     raise Unsupported(f"subscript of {obj!r}", node)
+
+
+def finite_lookup(I, st, table, key, node, default, has_default):
+    """table[key] for a finite host dict with string keys and a symbolic key: case split over the
+    keys (exhaustive) plus the 'no such key' case."""
+    from .smt import feasible
+    out = []
+    for k, v in table.items():
+        s = st.fork()
+        s.assume(key.t == z3.StringVal(k))
+        if feasible(s.pc, I.feas_timeout):
+            out.append((s, v))
+    st.assume(*[key.t != z3.StringVal(k) for k in table])
+    if feasible(st.pc, I.feas_timeout):
+        if has_default:
+            out.append((st, default))
+        else:
+            out += raise_(st, KeyError, key, node=node)
+    return out
 
 
 def getslice(I, st, obj, sl, node):
@@ -299,7 +320,17 @@ def call_method(I, st, recv, name, args, kwargs, node):
                 h.fields[k] = v
             return [(st, None)]
         if name == "copy":
-            return [(st, st.alloc(HDict(items=dict(h.fields))))]
+            # materialise lazily created fields first so that the copy is a full snapshot
+            for k in list(h.lazy):
+                if k not in h.fields:
+                    I.getattr(st, recv.recv, k, node)
+            return [(st, st.alloc(HDict(items=dict(st.get(recv.recv).fields))))]
+        if name == "clear":
+            for k in list(h.fields):
+                st.written.add((recv.recv.id, k))
+            h.fields.clear()
+            h.lazy.clear()
+            return [(st, None)]
         raise Unsupported(f"__dict__.{name}", node)
     if kind_of(recv) == "str" and not isinstance(recv, Ref):
         return str_method(I, st, recv, name, args, kwargs, node)
@@ -690,6 +721,10 @@ def iter_next(I, st, ref, node, default=None, has_default=False):
 # ---- str -----------------------------------------------------------------------
 
 def str_method(I, st, recv, name, args, kwargs, node):
+    if name == "join" and args and getattr(args[0], "is_abstract_iterable", False):
+        sp = I.specs.get("join_abstract")
+        if sp is not None:
+            return sp(I, st, [recv] + list(args), kwargs, node)
     if is_host(recv) and deep_host(tuple(args)) and deep_host(kwargs):
         try:
             return [(st, getattr(recv, name)(*args, **kwargs))]
@@ -714,7 +749,9 @@ def str_method(I, st, recv, name, args, kwargs, node):
         return [(st, Sym(z3.IndexOf(s, to_term(args[0], "str"), 0), "int"))]
     if name == "replace" and len(args) == 2:
         # z3 str.replace_all
-        return [(st, Sym(z3.ReplaceAll(s, to_term(args[0], "str"), to_term(args[1], "str")) if hasattr(z3, "ReplaceAll") else _replace_all(s, args), "str", tags))]
+        a0, a1 = to_term(args[0], "str"), to_term(args[1], "str")
+        t = z3.SeqRef(z3.Z3_mk_seq_replace_all(s.ctx_ref(), s.as_ast(), a0.as_ast(), a1.as_ast()), s.ctx)
+        return [(st, Sym(t, "str", tags))]
     if name == "__contains__":
         return [(st, Sym(z3.Contains(s, to_term(args[0], "str")), "bool"))]
     if name == "count" and isinstance(args[0], str) and len(args[0]) == 1:
@@ -1004,6 +1041,8 @@ def builtin_isinstance(I, st, args, kwargs, node):
             t = type(iter([]))
         elif isinstance(h, HLock):
             return [(st, False)]
+        if t is None:
+            t = list if type(h).__name__ == "HNodeList" else object
         return [(st, any(issubclass(t, c) for c in cl))]
     if isinstance(v, Sym):
         if v.k == "obj":
